@@ -56,11 +56,11 @@ func main() {
 
 	nK, nBigK, nP, nStress := 256, 2, 24000, 40
 	if a.Thorough() {
-		nK, nBigK, nP, nStress = 1600, 6, 1500000, 2000
+		nK, nBigK, nP, nStress = 1000, 6, 1500000, 2000
 	}
 	seqBudget, stressBudget := 25*time.Second, 20*time.Second
 	if a.Thorough() {
-		seqBudget, stressBudget = 10*time.Minute, 14*time.Minute
+		seqBudget, stressBudget = 6*time.Minute, 8*time.Minute
 	}
 	if a.Extra == "search" {
 		// the check driver's search step: no (K) cases, a bounded burst of the (P) oracles
